@@ -24,6 +24,7 @@ package main
 import (
 	"fmt"
 	"strings"
+	"time"
 
 	"github.com/jech/galene/rtpconn"
 
@@ -330,6 +331,91 @@ func corpus(t *tr.Trace, r *tr.Rand) {
 		h.answer(n, 9, false)
 		h.quiesce()
 	})
+	// The request CHANGES on established streams: video <-> video-low <->
+	// audio+video <-> nothing, through the default entry and through the entry
+	// of the stream's label, with 1, 2 and 3 video tracks.  After each change
+	// the down connection's tracks and every down track's limitSid are compared
+	// with the model and with the property (C07.offered_iff_requested,
+	// C04.limit_follows_request): the selection may stay the same while
+	// limitSid changes (video -> video-low with one video track).
+	for nv := 1; nv <= 3; nv++ {
+		kinds := []string{"audio"}
+		for i := 0; i < nv; i++ {
+			kinds = append(kinds, "video")
+		}
+		nv := nv
+		corpusRun(t, r, fmt.Sprintf("corpus-request-changes-%d", nv), 4, func(h *hist) {
+			p, m, n, q := h.cs[0], h.cs[1], h.cs[2], h.cs[3]
+			h.join(p, 1, 1)
+			h.join(m, 1, 4)
+			h.join(n, 1, 8)
+			h.join(q, 1, 12)
+			h.reqDefault(m, []string{"video"})
+			h.request(n, []int{1}, [][]string{{"video"}}, []bool{false})
+			h.reqDefault(q, []string{"video-low"})
+			h.quiesce()
+			h.establish(p, 1, 1, 0, kinds)
+			h.quiesce()
+			h.answer(q, 1, true)
+			for _, req := range [][]string{{"video-low"}, {"audio", "video"}, {"video-low", "audio"}, {},
+				{"video-low"}, {"video"}, {"video", "video-low"}, {"video-low"}, {"junk"}, {"video"}} {
+				h.reqDefault(m, req)
+				h.quiesce()
+			}
+			steps := []struct {
+				labels []int
+				reqs   [][]string
+			}{
+				{[]int{1}, [][]string{{"video-low"}}},
+				{[]int{0}, [][]string{{"video-low"}}},
+				{[]int{1, 0}, [][]string{{}, {"video"}}},
+				{[]int{1, 0}, [][]string{{"video-low"}, {"video"}}},
+				{[]int{1, 0}, [][]string{{"video"}, {"video-low"}}},
+				{[]int{2, 0}, [][]string{{"video"}, {"video-low", "audio"}}},
+				{[]int{1}, [][]string{{"audio", "video"}}},
+				{[]int{1}, [][]string{{"audio", "video-low"}}},
+			}
+			for _, st := range steps {
+				h.request(n, st.labels, st.reqs, make([]bool, len(st.labels)))
+				h.quiesce()
+			}
+			for _, req := range [][]string{{"video"}, {"video-low"}, {"video"}} {
+				h.reqDefault(q, req)
+				h.quiesce()
+				h.answer(q, 1, true)
+			}
+		})
+	}
+	// A permission change racing an offer: `unpresent` has been applied by the
+	// publisher's loop, its permissionsChangedAction (which closes the streams)
+	// is still queued, and the loop reads `offer B replace A`: A is deleted by
+	// the refused offer and the close must still be pushed to the subscribers.
+	corpusRun(t, r, "corpus-unpresent-offer-replace", 4, func(h *hist) {
+		p, o, m, n := h.cs[0], h.cs[1], h.cs[2], h.cs[3]
+		h.join(p, 1, 1)
+		h.join(o, 1, 6)
+		h.join(m, 1, 8)
+		h.join(n, 1, 12)
+		h.reqDefault(m, av)
+		h.reqDefault(n, []string{"audio"})
+		h.quiesce()
+		h.establish(p, 1, 0, 0, av)
+		h.quiesce()
+		h.perm(o, 0, false)
+		h.pump(p) // applies the change; permissionsChangedAction is queued behind
+		h.offer(p, 2, 0, 1, "g")
+		h.obs()
+		h.quiesce()
+		// and the same with a close in flight
+		h.perm(o, 0, true)
+		h.quiesce()
+		h.establish(p, 3, 0, 0, av)
+		h.quiesce()
+		h.perm(o, 0, false)
+		h.pump(p)
+		h.closeUp(p, 3)
+		h.quiesce()
+	})
 	// offers that fail, offers by a client without `present`, a second offer
 	// for an existing stream.
 	corpusRun(t, r, "corpus-offers", 3, func(h *hist) {
@@ -368,34 +454,89 @@ func corpus(t *tr.Trace, r *tr.Rand) {
 // video, and it was never offered.  The clients are now read from the group
 // when the goroutine wakes up.  Monitor C07.late-joiner.
 func lateJoiner(t *tr.Trace, r *tr.Rand) {
-	for _, real := range []bool{false, true} {
-		name := "corpus-late-joiner"
-		if real {
-			name = "corpus-late-joiner-real-timers" // the REAL 200 ms goroutines, no hook
-		}
-		corpusRun(t, r, name, 3, func(h *hist) {
-			p, m, n := h.cs[0], h.cs[1], h.cs[2]
-			h.join(p, 1, 1)
-			h.join(n, 1, 8)
-			h.reqDefault(n, av)
-			h.quiesce()
-			h.forceWait = real
-			h.establishWith(p, 1, 0, 0, av, func() {
-				h.join(m, 1, 4)
-				h.reqDefault(m, av)
-				h.pump(p)
-				h.pump(m)
-			})
-			h.forceWait = false
-			h.quiesce()
-			h.check("late-joiner")
-			if !h.tainted && (len(m.c.DownIds()) != 1 || len(n.c.DownIds()) != 1) {
-				h.fail("late-joiner", fmt.Sprintf("late-joiner: client 1 joined and requested audio+video inside the push delay of stream 1; "+
-					"at quiescence the stream has tracks %v, the early member holds %v, the late joiner holds %v",
-					h.ups[0].up.Kinds(), n.c.DownIds(), m.c.DownIds()))
-			}
+	// with the hook: the harness fires the delayed push; compared with the model
+	corpusRun(t, r, "corpus-late-joiner", 3, func(h *hist) {
+		p, m, n := h.cs[0], h.cs[1], h.cs[2]
+		h.join(p, 1, 1)
+		h.join(n, 1, 8)
+		h.reqDefault(n, av)
+		h.quiesce()
+		h.establishWith(p, 1, 0, 0, av, func() {
+			h.join(m, 1, 4)
+			h.reqDefault(m, av)
+			h.pump(p)
+			h.pump(m)
 		})
-	}
+		h.quiesce()
+		h.check("late-joiner")
+		if !h.tainted && (len(m.c.DownIds()) != 1 || len(n.c.DownIds()) != 1) {
+			h.fail("late-joiner", fmt.Sprintf("late-joiner: client 1 joined and requested audio+video inside the push delay of stream 1; "+
+				"at quiescence the stream has tracks %v, the early member holds %v, the late joiner holds %v",
+				h.ups[0].up.Kinds(), n.c.DownIds(), m.c.DownIds()))
+		}
+	})
+	// with the REAL 200 ms goroutines of pushConn, no hook.  When they run
+	// depends on the wall clock, so nothing is compared with the model and the
+	// generic monitors are off; the monitor polls: whatever the timing, the late
+	// joiner must END UP holding the stream (before F26 was repaired it never
+	// did when the tracks arrived inside the push delay of the offer).
+	corpusRun(t, r, "corpus-late-joiner-real-timers", 3, func(h *hist) {
+		h.nomodel, h.onlyMonitor = true, "late-joiner"
+		p, m, n := h.cs[0], h.cs[1], h.cs[2]
+		h.join(p, 1, 1)
+		h.join(n, 1, 8)
+		h.reqDefault(n, av)
+		h.quiesce()
+		pub, err := newPublisher(av)
+		if err != nil {
+			h.tainted = true
+			return
+		}
+		sdp, err := pub.offer()
+		if err != nil {
+			pub.close()
+			h.tainted = true
+			return
+		}
+		rec := h.offerSDP(p, 1, 0, 0, "g", sdp, pub)
+		if rec == nil {
+			pub.close()
+			h.tainted = true
+			return
+		}
+		rec.timers = 0 // the real goroutines fire, not the harness
+		h.join(m, 1, 4)
+		h.reqDefault(m, av)
+		h.pump(p)
+		h.pump(m)
+		pub.start()
+		held := func(c *cli) bool {
+			ds := c.c.VerifDowns()
+			return len(ds) == 1 && len(ds[0].TrackIdx) == 2
+		}
+		deadline := time.Now().Add(10 * time.Second)
+		ok := false
+		for time.Now().Before(deadline) {
+			h.drain()
+			for h.pumpAny() {
+			}
+			if len(rec.up.Kinds()) == 2 && held(m) && held(n) {
+				ok = true
+				break
+			}
+			time.Sleep(10 * time.Millisecond)
+		}
+		if len(rec.up.Kinds()) < 2 {
+			h.tainted = true // the media never arrived: nothing to say
+			return
+		}
+		h.check("late-joiner")
+		if !ok {
+			h.fail("late-joiner", fmt.Sprintf("late-joiner (real timers): client 1 joined and requested audio+video inside the push delay of stream 1; "+
+				"10 s after the tracks %v arrived the early member holds %v, the late joiner holds %v",
+				rec.up.Kinds(), n.c.DownIds(), m.c.DownIds()))
+		}
+	})
 }
 
 // ---------------------------------------------------------------- id collisions
